@@ -196,7 +196,8 @@ pub fn run_case(case: &Case, st: &mut Stats) -> CaseResult {
 }
 
 unsafe fn run_case_inner(case: &Case, st: &mut Stats) -> CaseResult {
-    let n0 = (case.n0 as usize).clamp(1, 6);
+    // a manager may start without any variable (all of them added at run time)
+    let n0 = (case.n0 as usize).min(6);
     rsdd::verif_hooks::set_unique_table_capacity(Some(64));
     let (mgr, order): (*mut c_void, Vec<usize>) = match &case.order_keys {
         None => (mk_bdd_manager_default_order(n0 as u64), (0..n0).collect()),
@@ -230,6 +231,11 @@ unsafe fn run_case_inner(case: &Case, st: &mut Stats) -> CaseResult {
         let len = cp.len();
         let at = |x: &u16| pick(*x, len);
         let vv = |raw: &u8| ((*raw as usize) * n) >> 8;
+        if n == 0 && matches!(op, COp::Var(..) | COp::Compose(..) | COp::WmcPoly(..)) {
+            // nothing to name yet
+            st.bump("op_needs_a_variable_but_the_manager_has_none");
+            continue;
+        }
         let produced: Option<(*mut CBdd, BddPtr, Tt, &'static str)> = match op {
             COp::Var(v, p) => {
                 let v = vv(v);
@@ -909,7 +915,7 @@ fn selv() -> impl Strategy<Value = Vec<u8>> {
 impl SubCheckT for Abi {
     type Case = Case;
     const NAME: &'static str = "c_api";
-    const RULE: &'static str = "histories of <=40 C-API calls on one manager (mk_bdd_manager_default_order or robdd_builder_all_table over var_order_new / var_order_linear): bdd_var, bdd_true/false, bdd_negate/and/or/ite/compose, bdd_new_var, bdd_new_label, interleaved with bdd_eq, bdd_count_nodes, robdd_model_count, bdd_wmc / _complex / _poly (weights — normalised or not — set and read back through the wmc_param_* / weight_* / polynomial_* calls, one polynomial weight of up to 32 coefficients, one with independent low/high lengths 0..40, short read-back buffers), handles from bdd_low / bdd_high used as operands, bdd_to_json, print_bdd, bdd_num_recursive_calls, bdd_scratch/set_scratch/clear_scratch, in lock step with a native RobddBuilder: the truth table read through bdd_is_true/false/topvar/low/high equals the one read off the native result, bdd_eq = native eq, topvar/low/high and whole results are isomorphic to the native ones, counts equal the native values exactly, model count = native smooth-and-count over the manager's current variables (differences between native results and the oracle are recorded only: they are other properties' concern); then the one-shot wrappers cnf_new/literal_new, cnf_from_dimacs, cnf_min_fill_order, dtree_from_cnf, vtree_from_dtree, robdd_builder_compile_cnf, sdd_builder_new/compile_cnf/sdd_wmc, ddnnf_builder_new/compile_cnf_topdown against their native counterparts. In about 1 % of the cases one more model count is taken on a manager with 21 or 22 variables (counts above 2^20). Non-trivial: >=1 binary/ternary op and >=1 count query";
+    const RULE: &'static str = "histories of <=40 C-API calls on one manager (mk_bdd_manager_default_order or robdd_builder_all_table over var_order_new / var_order_linear; 0..6 declared variables, the rest added at run time): bdd_var, bdd_true/false, bdd_negate/and/or/ite/compose, bdd_new_var, bdd_new_label, interleaved with bdd_eq, bdd_count_nodes, robdd_model_count, bdd_wmc / _complex / _poly (weights — normalised or not — set and read back through the wmc_param_* / weight_* / polynomial_* calls, one polynomial weight of up to 32 coefficients, one with independent low/high lengths 0..40, short read-back buffers), handles from bdd_low / bdd_high used as operands, bdd_to_json, print_bdd, bdd_num_recursive_calls, bdd_scratch/set_scratch/clear_scratch, in lock step with a native RobddBuilder: the truth table read through bdd_is_true/false/topvar/low/high equals the one read off the native result, bdd_eq = native eq, topvar/low/high and whole results are isomorphic to the native ones, counts equal the native values exactly, model count = native smooth-and-count over the manager's current variables (differences between native results and the oracle are recorded only: they are other properties' concern); then the one-shot wrappers cnf_new/literal_new, cnf_from_dimacs, cnf_min_fill_order, dtree_from_cnf, vtree_from_dtree, robdd_builder_compile_cnf, sdd_builder_new/compile_cnf/sdd_wmc, ddnnf_builder_new/compile_cnf_topdown against their native counterparts. In about 1 % of the cases one more model count is taken on a manager with 21 or 22 variables (counts above 2^20). Non-trivial: >=1 binary/ternary op and >=1 count query";
     fn cases(tier: Tier) -> u32 {
         tier.pick(5000, 60_000)
     }
@@ -937,7 +943,7 @@ impl SubCheckT for Abi {
             2 => (i(), any::<bool>()).prop_map(|(a, hi)| COp::Child(a, hi)),
         ];
         (
-            1u8..=6,
+            prop_oneof![1 => Just(0u8), 14 => 1u8..=6],
             proptest::option::weighted(0.7, order_keys_strategy()),
             proptest::collection::vec(op, 0..=40),
             sat_cnf_strategy(),
